@@ -31,8 +31,14 @@ def history(rng):
             lines.append('F.mutch 0 %d %d %s' % (rng.randrange(nsub), rng.randrange(len(chans)), apihist.rf(rng))); kinds.append('caller-mutates-channel')
         elif r < 0.62:
             lines.append('F.copy 1 0'); lines.append('F.mutpt 1 0 ' + apihist.rf(rng)); lines.append('frameR 0 - 1'); kinds.append('copy-then-mutate-then-hand-over'); nstored += 1
-        elif r < 0.70:
+        elif r < 0.66:
             lines.append('F.set 0 ' + lit().text()); kinds.append('caller-refills')
+        elif r < 0.70 and nstored:
+            # the caller copies a stored frame out of the object and gives the copy new content (points AND analogs): the copy
+            # detaches, the stored frame keeps what it held
+            lines.append('F.fromdata 1 0 %d' % rng.randrange(nstored)); lines.append('F.set 1 ' + lit().text()); kinds.append('copy-of-stored-frame-refilled')
+        elif r < 0.70:
+            lines.append('F.copy 1 0'); lines.append('F.set 1 ' + lit().text()); kinds.append('copy-of-caller-frame-refilled')
         elif r < 0.80 and nstored:
             lines.append('D.mutpt 0 %d %d %s' % (rng.randrange(nstored), rng.randrange(max(1, len(names))), apihist.rf(rng))); kinds.append('edit-stored-frame-in-place')
         elif r < 0.86 and nstored and chans:
@@ -47,7 +53,7 @@ def history(rng):
             lines.append('analog 0 ' + hx(n)); kinds.append('add-channel-column'); chans = chans + [n]
             lines.append('snap 0'); lines.append('F.show 0')
             lines.append('F.set 0 ' + lit().text())
-        lines.append('snap 0'); lines.append('F.show 0')
+        lines.append('snap 0'); lines.append('F.show 0'); lines.append('F.show 1')
     return lines, kinds
 
 def run(rep, work, rng, tier):
@@ -87,7 +93,7 @@ def run(rep, work, rng, tier):
                             bad += 1
                             if bad <= 3: rep.violation('oracle', 'adding one %s column changed frames by %s elements' % (arg, grew), script=[l for l in hist if not l.startswith(('snap', 'F.show'))], signature='column-added-more-than-once')
                 last = fk; pending = None
-            elif cmd in ('F.mutpt', 'F.mutch', 'F.set', 'F.copy', 'F.addpt', 'F.addch'): pending = ('caller', ln[:60])
+            elif cmd in ('F.mutpt', 'F.mutch', 'F.set', 'F.copy', 'F.addpt', 'F.addch', 'F.fromdata'): pending = ('caller', ln[:60])
             elif cmd in ('D.mutpt', 'D.mutch') and out and out[0] == 'ok': pending = ('inplace', ln[:60])
             elif cmd in ('point', 'analog') and out and out[0] == 'ok' and last: pending = ('column', cmd)
             elif cmd in ('frameR',): pending = None
